@@ -48,121 +48,79 @@ def run(ck, an, tier):
         return
     Cn = loop_item(fa, loop, 0)           # the loop's contract, by value id
     imb_src = ast.unparse(loop.iter.func.value) if isinstance(loop.iter, ast.Call) and isinstance(loop.iter.func, ast.Attribute) else "?"
-    # --- skips
-    skips = [n for n in ast.walk(loop) if isinstance(n, (ast.Continue, ast.Break, ast.Return))]
-    thr_found = False
-    zero_skip = []
-    for s in skips:
-        preds = fa.syntactic_guards(s)
-        atoms = []
-        for p in preds:
-            atoms += cmp_atoms(p)
-        keys = sorted(cmp_key(a) for a in atoms)
-        rels = [a for a in atoms if a[0] == "rel"]
-        ins = [a for a in atoms if a[0] == "in"]
-        frac = [a for a in atoms if a[0] == "truthy" and a[1] == "self.fractional"]
-        if isinstance(s, ast.Continue) and ins:
-            # threshold skip
-            thr_found = True
-            at_s = fa.node_of(enclosing_if(s).test).id
-            # abs(weight of this contract's imbalance) - self.margin, spelled with the function's own names and normalised by the same evaluator
-            thr = specv(fa, f"abs({imb_src}._to_weights(broker)[{cvar}]) - self.margin", at_s)
-            r_ok = len(rels) == 1 and rels[0][1] == "<" and len(rels[0][4].t) == 2 and rels[0][4].coeff_of_atom("self.margin") == Poly.const(-1) and any(a.startswith("abs(") and "_to_weights" in a for a in rels[0][4].atoms())
-            if len(rels) == 1 and rels[0][1] == "<=" and poly_mentions(rels[0][4], "self.margin", sign=-1):
-                ck.fail("CMP", "S1.threshold-strict", subj, fa.loc(s), "the threshold test is `<=`: an imbalance exactly at the threshold is skipped (property: at least the threshold trades)",
-                        construct=stmt_text(enclosing_if(s)))
+    # --- which items become a Trade, and of what size: a decision table over the atomic conditions, obtained by evaluating one
+    # loop iteration abstractly under every truth assignment (so nested ifs, guard clauses, boolean temporaries ... are all the same)
+    from sa.forward import Forward
+    from sa.dataflow import Poly
+    at0 = fa.node_of(loop.body[0]).id
+    Q = loop_item(fa, loop, 1)
+    thr = specv(fa, f"abs({imb_src}._to_weights(broker)[{cvar}]) - self.margin", at0)
+    BELOW = ("rel", "<", thr.key(), False, thr)                                   # |imbalance weight| < margin   (strict)
+    MEMBER = ("in", Cn.key(), "self.allocation", True)                            # contract in the target allocation
+    FRAC = ("truthy", "self.fractional", True)
+
+    qnames = {x.id for k_ in t.keywords for x in ast.walk(k_.value) if isinstance(x, ast.Name)}
+    inloop = {id(x) for x in ast.walk(loop)}
+    open_conditions = {}
+
+    def _decides_outcome(n_):
+        return any(isinstance(x, (ast.Continue, ast.Break, ast.Return, ast.Raise)) or x is t or (isinstance(x, ast.Name) and isinstance(x.ctx, ast.Store) and x.id in qnames) for x in ast.walk(n_))
+
+    def trade_seen(fw_, events):
+        """('trade', quantity value id) for every live path that builds the Trade; [] when the item is skipped"""
+        for n_, c_ in getattr(fw_, "open_tests", []):
+            if id(n_) in inloop and _decides_outcome(n_):
+                open_conditions.setdefault(cmp_key(c_), n_)
+        out = []
+        for st_, state in events:
+            if any(x is t for x in ast.walk(st_)):
+                fw_.st = state
+                kwq = next((k.value for k in t.keywords if k.arg == "quantity"), None)
+                out.append(fw_.ev(kwq).key() if kwq is not None else "?")
+        return sorted(set(out))
+    # the truncated quantity tested for zero: discovered from the whole-lot regime with the zero test left open
+    open_tab = decision_table(fa, [FRAC, BELOW, MEMBER], trade_seen)
+    lots = [q_ for q_ in open_tab[(False, False, False)] if q_ != Q.key()]
+    trunc_ok = len(lots) == 1 and any(lots[0] == f"{fn_}({Q.key()})" for fn_ in ("int", "math.trunc", "np.trunc", "numpy.trunc", "np.fix", "numpy.fix", "trunc"))
+    ck.check(trunc_ok, "IDIOM", "S3.truncation-family", subj, fa.loc(loop), "whole lots are obtained by truncation toward zero of the imbalance (int / math.trunc / np.trunc / np.fix)",
+             f"without fractional trading the traded quantity is {lots or open_tab[(False, False, False)]}: not a truncation toward zero of the imbalance", construct="quantity = int(quantity)")
+    if len(lots) == 1:
+        PL = Poly.atom(lots[0])
+        ZERO = ("rel", "==", PL.sign_normalised()[0].key(), False, PL.sign_normalised()[0])
+        open_conditions.clear()
+        tab = decision_table(fa, [FRAC, BELOW, MEMBER, ZERO], trade_seen)
+        bad = {"S1.threshold-strict": [], "S2.exempts-untargeted": [], "S3.fractional-quantity-unchanged": [], "S3.only-when-not-fractional": [], "S4.nonzero-into-trade": [], "S1.no-other-skip": []}
+        for (frac, below, member, zero), seen in tab.items():
+            skip_expected = (below and member) or (not frac and zero)
+            want_q = Q.key() if frac else lots[0]
+            regime = f"fractional={frac}, |w|<margin={below}, targeted={member}, whole lots==0={zero}"
+            if skip_expected:
+                if seen:
+                    clause = "S4.nonzero-into-trade" if (not frac and zero and not (below and member)) else "S1.threshold-strict"
+                    bad[clause].append(f"{regime}: a Trade of {seen} is built, expected none")
             else:
-                ck.check(r_ok, "CMP", "S1.threshold-strict", subj, fa.loc(s), "skip requires abs(imbalance weight) < margin (strict)",
-                         f"threshold condition is {[cmp_key(r) for r in rels]}", construct=stmt_text(enclosing_if(s)))
-            if r_ok:
-                # the weight looked up is the one of the loop's contract, from the imbalance's own weights
-                k = rels[0][4].key()
-                ck.check(rels[0][4] == thr, "ARGFLOW", "S1.threshold-weight", subj, fa.loc(s), "the weight tested is the imbalance weight of this contract",
-                         f"threshold tests {k}", construct=stmt_text(enclosing_if(s)))
-            i_ok = len(ins) == 1 and ins[0][3] is True and ins[0][1] == Cn.key() and ins[0][2] == "self.allocation"
-            ck.check(i_ok, "GUARD", "S2.exempts-untargeted", subj, fa.loc(s), "skip additionally requires `contract in self.allocation` (the target), so untargeted holdings are liquidated",
-                     f"membership condition is {[cmp_key(i) for i in ins]} (expected contract in self.allocation)", construct=stmt_text(enclosing_if(s)))
-            ck.check(len(atoms) == 2, "GUARD", "S1.threshold-conjunction", subj, fa.loc(s), "the skip condition is exactly the conjunction of the two tests",
-                     f"skip condition atoms: {keys}", construct=stmt_text(enclosing_if(s)))
-            # conjunction, not disjunction: guard_predicates splits conjunctions only
-            conj = all(p[0] != "or" for p in preds)
-            ck.check(conj, "GUARD", "S1.threshold-and", subj, fa.loc(s), "the two tests are joined by `and`", "the two tests are joined by `or`: untargeted or large imbalances are skipped",
-                     construct=stmt_text(enclosing_if(s)))
-        elif isinstance(s, ast.Continue) and any(rel_is(a, "==", fa.sym.ev(ast.Name(id=qvar, ctx=ast.Load()), fa.node_of(enclosing_if(s).test).id)) for a in atoms):
-            zero_skip.append(s)
-            extra = [a for a in atoms if not (a[0] == "rel" and a[1] == "==") and not (a[0] == "truthy" and a[1] == "self.fractional")]
-            ck.check(not extra, "GUARD", "S4.zero-skip-pure", subj, fa.loc(s), "the sub-lot skip depends only on the quantity being zero",
-                     f"sub-lot skip has extra conditions {[cmp_key(a) for a in extra]}", construct=stmt_text(enclosing_if(s)))
-        else:
-            ck.fail("GUARD", "S1.no-other-skip", subj, fa.loc(s), f"an additional `{type(s).__name__.lower()}` drops trades under {keys}", construct=stmt_text(enclosing_if(s) or s))
-    ck.check(thr_found, "GUARD", "S1.threshold-present", subj, fa.loc(loop), "the threshold skip is present", "no threshold skip in the trade loop (margin is ignored)",
-             construct="missing:if abs(weights[contract]) < self.margin and contract in self.allocation: continue")
-    # the Trade itself is not under any other branch
-    own_tests = set()
-    for s in skips:
-        for n, lab in fa.guards(s):
-            own_tests.add(n.id)
-    for n, lab in fa.guards(t):
-        if n.id in own_tests:
-            continue
-        if fa.cfg.nodes[n.id].stmt is loop:
-            continue
-        ck.fail("GUARD", "S1.trade-unconditional", subj, fa.loc(t), f"Trade construction is additionally guarded by `{ast.unparse(n.ast)}` ({lab})", construct="if " + ast.unparse(n.ast))
+                if not seen:
+                    clause = "S2.exempts-untargeted" if (below and not member) else "S1.no-other-skip"
+                    bad[clause].append(f"{regime}: no Trade is built, expected one of {want_q}")
+                elif seen != [want_q]:
+                    clause = "S3.fractional-quantity-unchanged" if frac else "S3.only-when-not-fractional"
+                    bad[clause].append(f"{regime}: Trade quantity {seen}, expected {want_q}")
+        what = {"S1.threshold-strict": "an imbalance is skipped exactly when |imbalance weight| < margin (strict) and the contract is targeted",
+                "S2.exempts-untargeted": "held-but-untargeted contracts are traded (liquidated) however small the imbalance",
+                "S3.fractional-quantity-unchanged": "in fractional mode the traded quantity is the imbalance itself",
+                "S3.only-when-not-fractional": "whole-lot truncation applies exactly when fractional is False",
+                "S4.nonzero-into-trade": "a sub-lot imbalance (whole lots == 0) is skipped, never sent to Trade",
+                "S1.no-other-skip": "nothing else prevents the Trade: every other imbalance item becomes one Trade"}
+        for key_, n_ in open_conditions.items():
+            strictness = key_.replace("<= 0]", "< 0]") == cmp_key(BELOW) or thr.key() in key_
+            bad["S1.threshold-strict" if strictness else "S1.no-other-skip"].append(
+                f"whether an item is traded also depends on {key_} (`{ast.unparse(n_.test)[:60]}`), which the reviewed conditions do not decide" + (": the threshold test is not the strict `<`" if strictness else ""))
+        for clause, msgs in bad.items():
+            ck.check(not msgs, "GUARD", clause, subj, fa.loc(loop), what[clause], "; ".join(msgs[:3]), construct="trade loop of make_trades", witness=msgs[:8])
     # Trade args
     kw = {k.arg: k.value for k in t.keywords}
     ck.check("contract" in kw and fa.sym.canon(kw["contract"]) == Cn.key(), "ARGFLOW", "S1.trade-contract", subj, fa.loc(t), "the trade is for the loop's contract",
              f"Trade(contract={ast.unparse(kw.get('contract')) if 'contract' in kw else '?'})", construct="contract=")
-    # --- S3 / S4 quantity flow
-    qexpr = kw.get("quantity")
-    defs = fa.rd.reaching(qexpr.id, fa.node_of(t).id) if isinstance(qexpr, ast.Name) else []
-    if not isinstance(qexpr, ast.Name) or not defs:
-        ck.fail("NZ", "S4.quantity-flow", subj, fa.loc(t), f"cannot trace Trade(quantity={ast.unparse(qexpr) if qexpr is not None else '?'}) to the loop", construct="quantity=")
-        return
-    trunc_defs = []
-    for d in defs:
-        if d.kind == "for":
-            ck.check(fa.cfg.nodes[d.node].stmt is loop, "ARGFLOW", "S3.fractional-quantity-unchanged", subj, fa.loc(t), "in fractional mode the traded quantity is the imbalance itself",
-                     "quantity comes from another loop", construct="quantity=")
-        elif d.kind == "assign":
-            v = d.value
-            fname = fa.an.prog.dotted(fa.f.module, v.func) if isinstance(v, ast.Call) else None
-            is_trunc = isinstance(v, ast.Call) and fname in TRUNC and len(v.args) == 1 and isinstance(v.args[0], ast.Name) and v.args[0].id == qvar
-            ck.check(is_trunc, "IDIOM", "S3.truncation-family", subj, fa.loc(d.ast), "whole lots are obtained by truncation toward zero of the imbalance",
-                     f"quantity is converted by `{ast.unparse(v)}` which is not truncation toward zero of the imbalance", construct=ast.unparse(d.ast))
-            preds = fa.guard_predicates(d.ast)
-            only_nonfrac = len(preds) == 1 and preds[0][0] == "truthy" and preds[0][1] == "self.fractional" and preds[0][2] is False
-            ck.check(only_nonfrac, "GUARD", "S3.only-when-not-fractional", subj, fa.loc(d.ast), "truncation applies exactly when fractional is False",
-                     f"truncation is guarded by {[cmp_key(p) for p in preds]}", construct=ast.unparse(d.ast))
-            trunc_defs.append(d)
-        else:
-            ck.fail("NZ", "S4.quantity-flow", subj, fa.loc(t), f"quantity has an unexpected definition ({d.kind})", construct="quantity=")
-    nonfrac_needed = True
-    if not trunc_defs:
-        ck.fail("IDIOM", "S3.truncation-family", subj, fa.loc(loop), "no whole-lot conversion under `not self.fractional`", construct="missing:quantity = int(quantity)")
-    # NZ: after each truncation, a zero-skip dominates the Trade on the paths through the truncation
-    for d in trunc_defs:
-        dn = d.node
-        ok = False
-        for z in zero_skip:
-            # the test guarding the continue must lie after the truncation and before the Trade
-            for n, lab in fa.guards(z):
-                c = fa.sym.cmp(n.ast, n.id)
-                if any(a[0] == "rel" and a[1] == "==" for a in cmp_atoms(c)):
-                    if fa.cfg.reaches(dn, n.id) and fa.cfg.every_path_to_passes(fa.node_of(t).id, {n.id} | _nodes_avoiding(fa, dn, fa.node_of(t).id)):
-                        ok = True
-        # simpler and exact: is the Trade reachable from the truncation without passing a zero test?
-        ztests = set()
-        for z in zero_skip:
-            for n, lab in fa.guards(z):
-                c = fa.sym.cmp(n.ast, n.id)
-                if any(rel_is(a, "==", fa.sym.ev(ast.Name(id=qvar, ctx=ast.Load()), n.id)) for a in cmp_atoms(c)):
-                    ztests.add(n.id)
-        reach = fa.cfg.reachable(dn, avoid=ztests | {fa.cfg.nodes.index(x) for x in []})
-        # do not follow the loop back edge: a later iteration re-defines quantity
-        reach_no_back = _reach_no_back(fa, dn, ztests)
-        ck.check(fa.node_of(t).id not in reach_no_back, "NZ", "S4.nonzero-into-trade", subj, fa.loc(d.ast),
-                 "a truncated quantity reaches Trade only through the zero-skip",
-                 "int(quantity) can be 0 and flows into Trade(quantity=) unguarded: sub-lot imbalances raise instead of being skipped", construct=ast.unparse(d.ast))
     # the loop source is an _Allocation (zero-free) : imbalance comes from _to_nr_contracts and -= NrContracts(...)
     ck.check("_to_nr_contracts(broker)" in imb or "phi(" in imb, "ARGFLOW", "S4.imbalance-is-allocation", subj, fa.loc(loop), "the imbalance is an allocation object (zero entries filtered)",
              f"imbalance is {imb}", construct=stmt_text(loop))
